@@ -30,7 +30,14 @@ is driven through histories mixing fault-tolerant decodes that end in a time-lik
 periodic time axis, taken from the model's `mtp`), single-step / ideal decodes and app runs, on codes of different
 sizes, while the caller overwrites returned arrays in place; every answer goes through the same monitors, is compared
 with a fresh instance, may share no array with another answer / the decoder / its arguments, and may not change after
-it was returned."""
+it was returned.
+(d) The bias CONTEXT as an input class: the derived-bias path (eta=None) of both decoders over every error-model family
+with its parameters at the extremes (biases 1e-12 .. 1e12, centre-slice limits with one component 1e-15 .. 1e-6 at
+pos +-1 and near it, BiasedYX small / huge bias) x step errors in the model's SUPPORT that are improbable but possible
+(single X / Z / Y on every qubit class, pairs, light random errors, optional measurement flips).  The domain is stated
+independently of the decoder (`derived_bias`: documented formula in plain floats); models whose derived bias is not a
+positive finite number or infinite, and models the decoder rejects with its documented ValueError, are counted as out
+of domain."""
 import collections
 import contextlib
 import itertools
@@ -60,6 +67,11 @@ RULE = ('(a) exact correspondence: _tparity on T in -4..9 x a,b in -12..12; _mea
         'failures, T=1) / decode / run_once_ftp / run_once / run_ftp calls on codes of different sizes with the caller '
         'overwriting returned arrays in place: the same monitors on every answer, equality with a fresh instance, no '
         'shared arrays, no retroactive change of earlier answers. '
+        '(d) derived-bias contexts (eta=None): every error-model family with extreme parameters (bias 1e-12..1e12, '
+        'centre-slice limits with one component 1e-15..1e-6 at pos +-1, BiasedYX small/huge bias) x step errors in the '
+        'support of the model (single X/Z/Y per qubit class, pairs, light random; T 1..3, optional flips) through '
+        'decode_ftp with the same monitors; out-of-domain models (derived bias not positive finite / infinite, or '
+        'rejected with the documented ValueError) are counted. '
         'non-trivial = some syndrome bit set / non-default branch')
 
 TL = 120  # seconds per real decode (decoders can hang after a mutation; typical worst case here is a few seconds)
@@ -103,6 +115,8 @@ def make_em(spec):
         return g.PhaseFlipErrorModel()
     if k == 'byx':
         return g.BiasedYXErrorModel(spec[1])
+    if k == 'cs':
+        return g.CenterSliceErrorModel(tuple(spec[1]), spec[2])
     raise ValueError(spec)
 
 
@@ -1293,6 +1307,146 @@ def part_histories(ctx, chk, rec):
     return n_hist, stats
 
 
+
+# ----------------------------------------------------------------------------------------------- part (d) bias contexts
+
+def derived_bias(em):
+    """independent statement of the documented bias derivation (eta=None): the bias of a Y-biased depolarizing model,
+    else p_y / (p_x + p_z) of probability_distribution(1) in plain Python floats.
+    -> ('finite', b) | ('infinite', None) | ('invalid', why)"""
+    from qecsim.models.generic import BiasedDepolarizingErrorModel
+    if isinstance(em, BiasedDepolarizingErrorModel) and em.axis == 'Y':
+        b = float(em.bias)
+    else:
+        _, px, py, pz = (float(x) for x in em.probability_distribution(1))
+        if px + pz == 0:
+            return ('infinite', None) if py > 0 else ('invalid', 'no error at all')
+        b = py / (px + pz)
+    if b > 0 and b != float('inf') and b == b:
+        return 'finite', b
+    return 'invalid', 'bias {!r}'.format(b)
+
+
+TINY = [1e-15, 1e-13, 1e-12, 1e-11, 1e-10, 3e-10, 1e-9, 1e-8, 1e-7, 1e-6]
+BIASES = [1e-12, 1e-9, 1e-6, 1e-3, 0.5, 1, 30, 1e3, 1e6, 1e9, 1e10, 1e11, 1e12]
+
+
+def bias_context_specs():
+    """CONTEXT error models as a class: every model family with its parameters at the extremes"""
+    out = [('dep',), ('bpf',), ('bf',), ('pf',)]
+    for b in BIASES:
+        out += [('bdep', b, 'Y'), ('bdep', b, 'X'), ('bdep', b, 'Z'), ('byx', b)]
+    out.append(('byx', 0))
+    for t in TINY:
+        # one tiny component beside a dominant one; pos = 1 is the limit itself, pos = -1 the opposite boundary point
+        for lim in ([0, 1, t], [t, 1, 0], [1, t, 0], [0, t, 1], [t, 0, 1], [1, 0, t]):
+            out += [('cs', lim, 1.0), ('cs', lim, -1.0)]
+        out += [('cs', [0, 1, t], 1 - t), ('cs', [t, 1, 0], 0.5), ('cs', [0, 1, 0], 1 - t), ('cs', [0, 1, 0], 1.0)]
+    return out
+
+
+BIAS_SIZES = {'planar': [(3, 3), (3, 4), (4, 3), (4, 4), (3, 5), (5, 5)],
+              'toric': [(2, 2), (2, 4), (4, 2), (4, 4), (4, 6), (6, 4), (6, 6)]}
+
+
+def qubit_classes(fam, size, n):
+    """representatives of every qubit class of the lattice (row-major flat index: corners, edges, bulk) - on the torus
+    all qubits are equivalent up to translation, so the same positions are simply a spread"""
+    R, C = size
+    cand = {0, C - 1, n - C, n - 1, C // 2, n - 1 - C // 2, (R // 2) * C, (R // 2) * C + C - 1, (R // 2) * C + C // 2,
+            min(n - 1, C + 1)}
+    return sorted(c for c in cand if 0 <= c < n)
+
+
+def support_errors(rng, fam, size, n, allowed, count):
+    """step errors in the SUPPORT of the model (improbable but possible): single X / Z / Y on each qubit class, pairs,
+    a light random error - only operators of positive probability"""
+    cls = qubit_classes(fam, size, n)
+    singles = [(q, o) for q in cls for o in allowed]
+    rng.shuffle(singles)
+    out = []
+    for o in allowed:                     # every operator of the support at least once
+        out.append([(rng.choice(cls), o)])
+    for q, o in singles[:max(0, count - len(out) - 2)]:
+        out.append([(q, o)])
+    out.append([(rng.randrange(n), rng.choice(allowed)) for _ in range(2)])
+    out.append([(rng.randrange(n), rng.choice(allowed)) for _ in range(rng.randint(2, 4))])
+    vecs = []
+    for ops in out:
+        v = np.zeros(2 * n, dtype=int)
+        for q, o in ops:
+            if o in 'XY':
+                v[q] ^= 1
+            if o in 'ZY':
+                v[n + q] ^= 1
+        vecs.append((v, ops))
+    return vecs
+
+
+def part_bias_contexts(ctx, chk, rec):
+    """derived-bias path (eta=None) of both decoders over extreme CONTEXT models x step errors in the model's support"""
+    import random
+    import warnings
+    rng = random.Random(ctx.seed * 6151 + 47)
+    specs = bias_context_specs()
+    reps = ctx.scale(1, 4)
+    per_ctx = ctx.scale(5, 8)
+    stats = collections.Counter()
+    for ems in specs * reps:
+        em = make_em(ems)
+        kind, b = derived_bias(em)
+        fam = rng.choice(['planar', 'toric'])
+        size = rng.choice(BIAS_SIZES[fam])
+        T = rng.choice([1, 1, 2, 3])
+        p = rng.choice([0.01, 0.1, 0.3, 0.5, 0.9])
+        itp = fam == 'toric' and rng.random() < 0.15
+        code = make_code(fam, size); S = code.stabilizers; m, n = S.shape[0], S.shape[1] // 2
+        pd = [float(x) for x in em.probability_distribution(p)]
+        allowed = [o for o, pr in zip('XYZ', pd[1:]) if pr > 0]
+        tag = kind if kind != 'finite' else ('finite<=1e-9' if b <= 1e-9 else 'finite>=1e9' if b >= 1e9 else 'finite')
+        ctx.count('bias.context', '{} {}'.format(ems[0], tag))
+        if not allowed:
+            stats['no-support'] += 1
+            continue
+        dec = make_decoder(fam, None, itp)
+        for v, ops in support_errors(rng, fam, size, n, allowed, per_ctx):
+            es = [np.zeros(2 * n, dtype=int) for _ in range(T)]
+            es[rng.randrange(T)] = v
+            meas = [np.zeros(m, dtype=int) for _ in range(T)]
+            q = 0 if T == 1 else rng.choice([0, 0.1, p])
+            if T > 1 and q and rng.random() < 0.5:
+                for _ in range(rng.randint(1, 2)):
+                    meas[rng.randrange(T)][rng.randrange(m)] ^= 1
+            rows = np.array([meas[t - 1] ^ synd(S, es[t]) ^ meas[t] for t in range(T)], dtype=int)
+            rc = recipe(fam, size, T, None, itp, ems, p, q, q, rows, meas, 'bias-context')
+            rc['step_error'] = ['{}{}'.format(o, qq) for qq, o in ops]
+            rec.reset()
+            out = exc = None
+            try:
+                with core.TimeLimit(TL), warnings.catch_warnings():
+                    warnings.simplefilter('ignore')
+                    out = dec.decode_ftp(code, T, rows.copy(), error_model=em, error_probability=p,
+                                         measurement_error_probability=q, error=xor_rows(es), step_errors=es,
+                                         step_measurement_errors=meas)
+            except core.TimeLimit.Expired:
+                stats['timeouts'] += 1; continue
+            except Exception as ex:  # noqa: B902
+                exc = ex
+            if kind != 'finite':
+                # outside the stated domain unless the decoder takes the bias as infinite (Y-only model, exact zero X/Z)
+                if isinstance(exc, ValueError) and 'does not resolve' in str(exc):
+                    stats['out-of-domain:' + kind + ' rejected with the documented ValueError'] += 1
+                    break
+                if kind == 'invalid':
+                    stats['out-of-domain:invalid accepted'] += 1
+                    break
+            stats['decodes'] += 1
+            stats['decodes ' + tag] += 1
+            ctx.count('bias.step_error', '+'.join(sorted(o for _, o in ops)) if len(ops) < 3 else 'random')
+            chk.check(fam, size, code, T, itp, rows, meas, out, exc, rc, 'bias-context')
+    return stats
+
+
 # ----------------------------------------------------------------------------------------------- entry points
 
 def run(ctx):
@@ -1315,6 +1469,10 @@ def run(ctx):
         n_hist, hstats = part_histories(ctx, chk, rec)
         ctx.extra['histories_s'] = round(time.time() - t, 1)
         timeouts += hstats.pop('timeouts', 0)
+        t = time.time()
+        bstats = part_bias_contexts(ctx, chk, rec)
+        ctx.extra['bias_contexts_s'] = round(time.time() - t, 1)
+        timeouts += bstats.pop('timeouts', 0)
     if timeouts:
         ctx.extra['timeouts'] = ctx.extra.get('timeouts', 0) + timeouts
     ctx.counterexamples.sort(key=lambda c: 0 if isinstance(c.get('input'), dict) and (
@@ -1346,6 +1504,13 @@ def run(ctx):
                 'overwriting returned arrays in place in between; on every answer: monitor: ' + mon_rule + ', same answer '
                 'as a fresh instance, no array shared between answers / with the decoder / with the arguments, earlier '
                 'answers unchanged'}
+    ctx.explored['smwpm_derived_bias_contexts'] = {
+        'evaluations': int(bstats.get('decodes', 0)), 'exhaustive': False,
+        'counts': {k: int(v) for k, v in sorted(bstats.items())},
+        'rule': 'decode_ftp with eta=None on extreme-parameter error models (all families) x step errors in the support of '
+                'the model (single X/Z/Y on every qubit class, pairs, light random errors; T in 1..3; optional measurement '
+                'flips); domain stated independently (documented p_y/(p_x+p_z) at probability 1 is positive finite, or X/Z '
+                'weight exactly 0); monitor: ' + mon_rule}
     ctx.assumptions = [
         'the recovery construction of the SMWPM decoders (graph nodes/edges, clustering, paths, final XOR) is modelled in '
         'Model/Smwpm.lean and proved to return to the code space for ANY perfect matchings; edge weights and gt.mwpm '
